@@ -74,6 +74,16 @@ Fixpoint mset_eqb {A} (eqb : A -> A -> bool) (a b : list A) : bool :=
   | x :: a' => match remove_one eqb x b with Some b' => mset_eqb eqb a' b' | None => false end
   end.
 Definition is_woken (e : pevent) : bool := match e with EWaiterWoken _ _ => true | _ => false end.
+
+(* An ABANDONED waiter (the receiver is dropped right after registration, as a block producer that gives up on its
+   window does): its wake-up cannot be observed.  The harness marks the OpWait step itself with a woken entry for its
+   slot (a real OpWait step never wakes anybody); wake-ups of such slots are left out of the comparison and of the
+   waiter clauses - what the pool stores and answers afterwards (parents_ready) is compared as always. *)
+Definition is_wait (st : pstep) : bool := match sp_op st with OpWait _ => true | _ => false end.
+Definition woken_obs (st : pstep) : list pevent := if is_wait st then [] else sp_woken st.
+Definition abandoned_step (st : pstep) : bool := is_wait st && match sp_woken st with [] => false | _ => true end.
+Definition abandoned (hist : list pstep) (s : slot) : bool :=
+  existsb (fun h => abandoned_step h && match sp_op h with OpWait s' => s =? s' | _ => false end) hist.
 Definition obs_eqb (a b : pobs) : bool :=
   (ob_finalized a =? ob_finalized b) && (ob_first_unpruned a =? ob_first_unpruned b)
   && mset_eqb N.eqb (ob_retained_slots a) (ob_retained_slots b)
@@ -300,12 +310,13 @@ Definition c07_step_ok (e : epoch) (hist : list pstep) (st : pstep) : bool :=
      | OpWait s, RWait None => match query s with [] => true | _ => false end
      | _, _ => true
      end
-  && forallb (fun x => match x with EWaiterWoken s b => ready_spec cs blocks s b | _ => true end) (sp_woken st)
+  && forallb (fun x => match x with EWaiterWoken s b => ready_spec cs blocks s b | _ => true end) (woken_obs st)
   && forallb (fun h => match sp_op h, sp_res h with
                        | OpWait s, RWait None =>
-                         (s <? ob_first_unpruned obs) || match query s with [] => true | _ => false end
+                         abandoned_step h
+                         || (s <? ob_first_unpruned obs) || match query s with [] => true | _ => false end
                          || existsb (fun x => match x with EWaiterWoken s' _ => s =? s' | _ => false end)
-                                    (flat_map sp_woken (st :: hist))
+                                    (flat_map woken_obs (st :: hist))
                        | _, _ => true
                        end) hist.
 
@@ -403,7 +414,8 @@ Fixpoint run_steps (sel : N) (e : epoch) (p : pool) (hist : list pstep) (k : N) 
   | st :: rest =>
     let '(p', res, out) := pool_step e p (sp_op st) in
     let mev := filter (fun x => negb (is_woken x)) (po_events out) in
-    let mwk := filter is_woken (po_events out) in
+    let mwk := filter (fun x => match x with EWaiterWoken s _ => negb (abandoned (st :: hist) s) | _ => false end)
+                      (po_events out) in
     (* a panicking step is compared by its outcome only: the implementation may have emitted
        part of its outputs before unwinding *)
     let same :=
@@ -412,7 +424,7 @@ Fixpoint run_steps (sel : N) (e : epoch) (p : pool) (hist : list pstep) (k : N) 
          | RPanic => true
          | _ => mset_eqb pevent_eqb mev (sp_events st)
                 && mset_eqb bid_eqb (po_repair out) (sp_repair st)
-                && mset_eqb pevent_eqb mwk (sp_woken st)
+                && mset_eqb pevent_eqb mwk (woken_obs st)
                 && obs_eqb (observe p' (queried st)) (sp_obs st)
          end in
     (* the same oracle on the model's own outputs (must never fail, by the theorems) *)
